@@ -33,6 +33,9 @@ def gen(rng, tier, ds):
     reqs.append(("d1", [wc.enc_q(5, t2, [wc.COLS[0]]), wc.enc_q(9, t2, [wc.COLS[0]]), wc.enc_q(0, t2, [wc.COLS[0]]), wc.enc_q(5, t2, [wc.COLS[0]])]))
     reqs.append(("d2", [wc.enc_q(0, t2, [wc.COLS[0]]), wc.enc_q(0, t2, [wc.COLS[1]]), wc.enc_q(0, t2, []), wc.enc_q(0, t2, [wc.COLS[1], wc.COLS[0]])]))
     reqs.append(("d3", [wc.enc_q(40, a1, []), wc.enc_q(30, t2, []), wc.enc_q(20, a1, [wc.COLS[0]]), wc.enc_q(10, t2, [])]))
+    for j, qs in enumerate([[wc.enc_q(0, a1, []), wc.enc_q(0, None, []), wc.enc_q(0, t2, [])], [wc.enc_q(0, None, [])], [wc.enc_q(0, None, [wc.COLS[0]]), wc.enc_q(0, a1, [])],
+                            [wc.enc_q(0, a1, []), wc.enc_q(7, None, [])]]):
+        reqs.append(("dn%d" % j, qs))                       # a member without expression fails the whole call
     reqs.append(("d4", [wc.enc_q(0, a1, []), wc.enc_q(1, t2, []), wc.enc_q(0, a1, []), wc.enc_q(-4, a1, [])]))
     return reqs
 
@@ -171,6 +174,10 @@ def grpc_sql(rep, scratch, rng, ds, addr, tier):
                   "SQLOPEN %s3 %s - 3" % (h, src), "SQLCONC c9 %s3 4 %s" % (h, q1), "SQLQ s9002 %s3 prepared %s 2" % (h, q1), "ARGS 0", "ARGS 0", "SQLCLOSE %s3" % h,
                   "SQLQ s9003 %s prepared %s 1" % (h, q1), "ARGS 0"]
     stmts += [(9000, b'a = "1" ; b', [[]], "direct"), (9001, b'a = "1" ; b', [[]], "direct"), (9002, b'a = "1" ; b', [[], []], "prepared"), (9003, b'a = "1" ; b', [[]], "prepared")]
+    # a prepared statement that is still in use 11 s after it was prepared (only the grpc run waits)
+    for lines, h, ms in ((lines_f, "hf", 0), (lines_g, "hg", 11000), (lines_m, "hg", 0)):
+        lines.append("SQLPREPSLEEP s9100 %s %s %d" % (h, q1, ms))
+    stmts.append((9100, b'a = "1" ; b', [[], []], "prepared, second execution 11 s after Prepare"))
     fi, fm, rc1, e1 = sqlcommon.run_lines(scratch, lines_f, "c13f", model_side=False)
     gi, _, rc2, e2 = sqlcommon.run_lines(scratch, lines_g, "c13g", model_side=False)
     _, gm, _, _ = sqlcommon.run_lines(scratch, lines_m, "c13m", impl_side=False)
